@@ -357,6 +357,7 @@ func vInfixShape(op pAst.InfixOperator) int {
     ensures @handlers-balanced self.tryDepth == old(self.tryDepth)
     ensures @no-scope-changed forall m map[string]string in allocated :: samecontent(m, old(m))
     ensures @same-module self.currModule == old(self.currModule) && samemap(self.modules, old(self.modules))
+    ensures @module-tables-kept samecontent(self.modules, old(self.modules)) && samemap(self.globalScopes, old(self.globalScopes)) && samecontent(self.globalScopes, old(self.globalScopes))
     assume @trigger-arguments-are-another-function after self.currFn = currFnOld :: self.aligned() && self.CurrFn() == entry(self.CurrFn())
     assert @body-starts-outside-try before self.compileBlock(node.Body, false) :: self.tryDepth == 0
     loop 3 progress @parameter-popped-once param.IsSingletonExtractor || (self.codeLen() == iterstart(self.codeLen()) + 1 && self.emitted(0).Opcode() == Opcode_SetVarImm)
@@ -434,6 +435,86 @@ func vInfixShape(op pAst.InfixOperator) int {
     loop 1 invariant self.scopesWF() && self.aligned() && self.codeLen() >= entry(self.codeLen()) && len(self.varScopes) == entry(len(self.varScopes)) && len(self.loops) == entry(len(self.loops)) && self.tryDepth == entry(self.tryDepth) && self.currFn == entry(self.currFn) && self.currModule == entry(self.currModule) && samemap(self.modules, entry(self.modules)) && self.CurrFn() == entry(self.CurrFn())
     loop 1 invariant forall i in 0..len(self.varScopes) :: samemap(self.varScopes[i], entry(self.varScopes[i]))
     loop 1 invariant forall m map[string]string in allocated :: samecontent(m, entry(m))
+@*/
+
+// ---------------------------------------------------------------------------
+// Program level (C14 cross-module names, C15 module isolation): every module
+// is compiled against its own root scope, the root scopes of all modules
+// exist before a name imported from another module is bound, and the entry
+// module's init routine calls the init routine of every other module.
+
+/*@ func (self *Compiler) compileSingletonInit
+    serves C01, C15
+    assume-safety
+    requires self.scopesWF() && self.aligned()
+    ensures @scope-stack-balanced self.scopesWF() && len(self.varScopes) == old(len(self.varScopes)) && forall i in 0..len(self.varScopes) :: samemap(self.varScopes[i], old(self.varScopes[i]))
+    ensures @only-appends self.codeLen() >= old(self.codeLen())
+    ensures @loop-stack-balanced len(self.loops) == old(len(self.loops))
+    ensures @handlers-balanced self.tryDepth == old(self.tryDepth)
+    ensures @same-function self.aligned() && self.currFn == old(self.currFn) && self.currModule == old(self.currModule) && samemap(self.modules, old(self.modules)) && self.CurrFn() == old(self.CurrFn())
+    ensures @only-current-scope forall m map[string]string in allocated :: !samemap(m, old(self.varScopes[len(self.varScopes)-1])) ==> samecontent(m, old(m))
+@*/
+
+/*@ func (self *Compiler) compileProgram
+    serves C14, C15
+    assume-safety
+    requires len(self.varScopes) == 1 && self.scopesWF() && len(self.loops) == 0 && self.tryDepth == 0 && self.modules != nil && self.globalScopes != nil
+    assert @all-root-scopes-exist before moduleAnnotations := make(ModuleAnnotations) :: forall m string in keys(program) :: haskey(self.globalScopes, m) && haskey(self.modules, m) && self.modules[m] != nil && haskey(initFns, m)
+    assert @own-root-scope before fnAnnotations, _ := self.compileFn(fn) :: self.currModule == moduleName && samemap(self.varScopes[0], self.globalScopes[moduleName]) && self.scopesWF() && len(self.varScopes) == 1
+    assume @init-routine-kept after self.currModule = entryPointModule :: self.aligned()
+    loopinvariant len(self.varScopes) == 1 && self.scopesWF() && len(self.loops) == 0 && self.tryDepth == 0 && self.modules != nil && self.globalScopes != nil
+    loop 1 invariant forall m string in keys(program) :: visited(m) ==> haskey(self.globalScopes, m) && haskey(self.modules, m) && self.modules[m] != nil && haskey(initFns, m)
+    loop 2 invariant self.aligned() && self.currModule == moduleName && self.currFn == InitFunctionIdent
+    loop 2 invariant haskey(self.modules, moduleName) && self.modules[moduleName] != nil
+    loop 2 invariant haskey(self.globalScopes, moduleName)
+    loop 2 invariant haskey(initFns, moduleName)
+    loop 3 invariant self.aligned() && self.currModule == moduleName && self.currFn == InitFunctionIdent
+    loop 3 invariant haskey(self.modules, moduleName) && self.modules[moduleName] != nil
+    loop 3 invariant haskey(self.globalScopes, moduleName)
+    loop 3 invariant haskey(initFns, moduleName)
+    loop 4 invariant self.aligned() && self.currModule == moduleName && self.currFn == InitFunctionIdent
+    loop 4 invariant haskey(self.modules, moduleName) && self.modules[moduleName] != nil
+    loop 4 invariant haskey(self.globalScopes, moduleName)
+    loop 4 invariant haskey(initFns, moduleName)
+    loop 5 invariant self.aligned() && self.currModule == moduleName && self.currFn == InitFunctionIdent
+    loop 5 invariant haskey(self.modules, moduleName) && self.modules[moduleName] != nil
+    loop 5 invariant haskey(self.globalScopes, moduleName)
+    loop 5 invariant haskey(initFns, moduleName)
+    loop 6 invariant self.currModule == moduleName && haskey(self.modules, moduleName) && self.modules[moduleName] != nil && haskey(self.globalScopes, moduleName) && haskey(initFns, moduleName)
+    loop 7 invariant self.currModule == moduleName && haskey(self.modules, moduleName) && self.modules[moduleName] != nil && haskey(self.globalScopes, moduleName) && haskey(initFns, moduleName)
+    loop 8 invariant self.currModule == moduleName && haskey(self.modules, moduleName) && self.modules[moduleName] != nil && haskey(self.globalScopes, moduleName) && haskey(initFns, moduleName)
+    loop 9 invariant self.currModule == moduleName && haskey(self.modules, moduleName) && self.modules[moduleName] != nil && haskey(self.globalScopes, moduleName) && haskey(initFns, moduleName)
+    loop 10 invariant forall m string in keys(program) :: haskey(self.globalScopes, m) && haskey(self.modules, m) && self.modules[m] != nil
+    loop 11 invariant forall m string in keys(program) :: haskey(self.globalScopes, m) && haskey(self.modules, m) && self.modules[m] != nil
+    loop 12 invariant forall m string in keys(program) :: haskey(self.globalScopes, m) && haskey(self.modules, m) && self.modules[m] != nil
+    loop 13 invariant forall m string in keys(program) :: haskey(self.globalScopes, m) && haskey(self.modules, m) && self.modules[m] != nil
+    loop 14 invariant forall m string in keys(program) :: haskey(self.globalScopes, m) && haskey(self.modules, m) && self.modules[m] != nil
+    loop 15 invariant forall m string in keys(program) :: haskey(self.globalScopes, m) && haskey(self.modules, m) && self.modules[m] != nil
+    loop 16 invariant forall m string in keys(program) :: haskey(self.globalScopes, m) && haskey(self.modules, m) && self.modules[m] != nil
+    loop 11 invariant self.currModule == moduleName && samemap(self.varScopes[0], self.globalScopes[moduleName])
+    loop 12 invariant self.currModule == moduleName && samemap(self.varScopes[0], self.globalScopes[moduleName])
+    loop 13 invariant self.currModule == moduleName && samemap(self.varScopes[0], self.globalScopes[moduleName])
+    loop 14 invariant self.currModule == moduleName && samemap(self.varScopes[0], self.globalScopes[moduleName])
+    loop 15 invariant self.currModule == moduleName && samemap(self.varScopes[0], self.globalScopes[moduleName])
+    loop 16 invariant self.aligned() && self.currFn == InitFunctionIdent && self.currModule == entryPointModule
+    loop 1 invariant !samemap(initFns, self.varScopes[0]) && !samemap(initFns, mappings.Globals) && !samemap(initFns, mappings.Functions) && !samemap(initFns, mappings.Singletons)
+    loop 2 invariant !samemap(initFns, self.varScopes[0]) && !samemap(initFns, mappings.Globals) && !samemap(initFns, mappings.Functions) && !samemap(initFns, mappings.Singletons)
+    loop 3 invariant !samemap(initFns, self.varScopes[0]) && !samemap(initFns, mappings.Globals) && !samemap(initFns, mappings.Functions) && !samemap(initFns, mappings.Singletons)
+    loop 4 invariant !samemap(initFns, self.varScopes[0]) && !samemap(initFns, mappings.Globals) && !samemap(initFns, mappings.Functions) && !samemap(initFns, mappings.Singletons)
+    loop 5 invariant !samemap(initFns, self.varScopes[0]) && !samemap(initFns, mappings.Globals) && !samemap(initFns, mappings.Functions) && !samemap(initFns, mappings.Singletons)
+    loop 6 invariant !samemap(initFns, self.varScopes[0]) && !samemap(initFns, mappings.Globals) && !samemap(initFns, mappings.Functions) && !samemap(initFns, mappings.Singletons)
+    loop 7 invariant !samemap(initFns, self.varScopes[0]) && !samemap(initFns, mappings.Globals) && !samemap(initFns, mappings.Functions) && !samemap(initFns, mappings.Singletons)
+    loop 8 invariant !samemap(initFns, self.varScopes[0]) && !samemap(initFns, mappings.Globals) && !samemap(initFns, mappings.Functions) && !samemap(initFns, mappings.Singletons)
+    loop 9 invariant !samemap(initFns, self.varScopes[0]) && !samemap(initFns, mappings.Globals) && !samemap(initFns, mappings.Functions) && !samemap(initFns, mappings.Singletons)
+    loop 2 invariant samecontent(initFns, entry(initFns))
+    loop 3 invariant samecontent(initFns, entry(initFns))
+    loop 4 invariant samecontent(initFns, entry(initFns))
+    loop 5 invariant samecontent(initFns, entry(initFns))
+    loop 6 invariant samecontent(initFns, entry(initFns))
+    loop 7 invariant samecontent(initFns, entry(initFns))
+    loop 8 invariant samecontent(initFns, entry(initFns))
+    loop 9 invariant samecontent(initFns, entry(initFns))
+    loop 16 progress @every-module-initialised moduleName == entryPointModule || (self.codeLen() == iterstart(self.codeLen()) + 1 && self.emitted(0).Opcode() == Opcode_Call_Imm && self.emitted(0).(OneStringInstruction).Value == otherInit)
 @*/
 
 // ---------------------------------------------------------------------------
